@@ -1565,10 +1565,27 @@ where
             greedy: true,
         };
         if self.try_consume(',') {
+            let digits_start = self.input.clone();
             let max = self.try_consume_decimal_integer_literal();
             // Either like {3,4} in which case we want to set the max;
             // or like {3,} in which case the max should be None to indicate unbounded.
             quant.max = max;
+            // Both bounds saturate at usize::MAX, which would hide {m,n} with m > n when both
+            // overflow. Compare the digit strings in that case, and make the bounds unequal
+            // so that the "min > max" validation rejects it.
+            if optmin == usize::MAX && max == Some(usize::MAX) {
+                fn digits(it: impl Iterator<Item = u32>) -> Vec<u32> {
+                    it.take_while(|c| (0x30..=0x39).contains(c))
+                        .skip_while(|&c| c == 0x30)
+                        .collect()
+                }
+                // Skip the '{' before the minimum.
+                let min_digits = digits(pre_input.clone().skip(1));
+                let max_digits = digits(digits_start);
+                if (min_digits.len(), &min_digits) > (max_digits.len(), &max_digits) {
+                    quant.max = Some(usize::MAX - 1);
+                }
+            }
         } else {
             // Like {3}.
         }
